@@ -436,6 +436,18 @@ class Evaluator:
                     continue
                 except _Break:
                     break
+        elif isinstance(st, ast.Delete):
+            for t in st.targets:
+                if isinstance(t, ast.Subscript):
+                    base = self.ev(t.value)
+                    try:
+                        del base[self.ev(t.slice)]
+                    except (KeyError, IndexError, TypeError) as e:
+                        raise Raised(type(e).__name__)
+                elif isinstance(t, ast.Name):
+                    self.locals.pop(t.id, None)
+                else:
+                    raise Unfoldable("delete target")
         elif isinstance(st, ast.Return):
             raise _Return(self.ev(st.value) if st.value is not None else None)
         elif isinstance(st, ast.Raise):
